@@ -12,6 +12,7 @@ def clip(t, n=150):
 def main():
     rows = ["| seeded change | property | what it does | needs | caught by |", "|---|---|---|---|---|"]
     n = missed = 0
+    first_missed = []
     for name in sorted(os.listdir(D)):
         p = os.path.join(D, name, "meta.json")
         if not os.path.exists(p):
@@ -24,13 +25,18 @@ def main():
                 how.append("%s: %s" % (pid, "broken tie (no-failing-input-found)"
                                        if all("no-failing-input-found" in x for x in v) else "failing input"))
         n += 1
+        retest = os.path.join(D, name + "_retest", "meta.json")
+        if not how and os.path.exists(retest) and json.load(open(retest)).get("caught_by"):
+            how = ["not caught at first; caught after strengthening (see %s_retest)" % name]
+            first_missed.append(name)
         missed += 0 if how else 1
         rows.append("| %s | %s | %s | %s | %s |" % (name, m["property"], clip(m["summary"]), clip(m["needs"], 130),
                                                    "; ".join(how) or "**not caught**"))
     head = open(os.path.join(D, "HEADER.md")).read()
     hist = open(os.path.join(D, "HISTORY.md")).read()
     with open(os.path.join(D, "README.md"), "w") as f:
-        f.write(head + "\n".join(rows) + "\n\n%d seeded changes, %d not caught.\n\n" % (n, missed) + hist)
+        f.write(head + "\n".join(rows) + "\n\n%d entries (retests included); %d escaped at first and are caught since the checks were "
+                "strengthened (%s); %d not caught now.\n\n" % (n, len(first_missed), ", ".join(first_missed), missed) + hist)
     print(n, "seeded,", missed, "not caught")
 
 
